@@ -895,6 +895,7 @@ def eval_score(d):
     ptoks = " ".join(part_tokens(p, g) for p, g in zip(score.parts, gidx))
     stoks = " ".join(src_tokens(p, g) for p, g in zip(score.parts, gidx))
     n_sound = sum(len(sounding_desc(pd)) for pd in sd["parts"])
+    rows = score_rows(score)
     for cfg in d["configs"]:
         mode, anac, minppq, vel = cfg
         tag = "mode=%d %s min=%d vel=%d" % (mode, anac, minppq, vel)
@@ -934,7 +935,7 @@ def eval_score(d):
         # ---- the vocabulary of the theorems against the real file: what each track must hold
         if pnotes is not None:
             ev.requests.append("spec %d %s %d %d %d %s" % (mode, anac, minppq, vel, len(score.parts), ptoks))
-            ev.impl.append(spec_text(sd, order, score, anac, tracks, pnotes))
+            ev.impl.append(spec_text(sd, order, rows, anac, tracks, pnotes))
         # ---- score reader, same mode
         buf.seek(0)
         zero_num = any(m.type == "time_signature" and m.numerator == 0 for tr in tracks for _, _, m in tr)
@@ -978,7 +979,18 @@ def snap(x):
     return Fraction(float(x)).limit_denominator(1000000)
 
 
-def spec_text(sd, order, score, anac, tracks, pnotes):
+def score_rows(score):
+    """the score's sounding notes in musical time, from the real quarter maps"""
+    rows = []
+    for p in score.parts:
+        qm = p.quarter_map
+        for n in p.notes_tied:
+            q0, q1 = snap(qm(n.start.t)), snap(qm(n.start.t + n.duration_tied))
+            rows.append((q0, q1 - q0, int(n.midi_pitch)))
+    return rows
+
+
+def spec_text(sd, order, rows, anac, tracks, pnotes):
     """what the real file holds, in the vocabulary of Model/ScoreMidiSpec.lean: per track the notes read by the real
     performance reader, the key / time signature and tempo events written by the real exporter; the score's sounding
     notes in musical time from the real quarter maps"""
@@ -992,11 +1004,6 @@ def spec_text(sd, order, score, anac, tracks, pnotes):
         lambda n: W.f_tuple(*[W.f_int(n[f]) for f in ("note_on_tick", "note_off_tick", "midi_pitch", "channel", "velocity")]),
         sorted((n for n in pnotes if n["track"] == i),
                key=lambda n: (n["note_on_tick"], n["midi_pitch"], n["note_off_tick"], n["channel"], n["velocity"]))), trs)
-    rows = []
-    for p in score.parts:
-        for n in p.notes_tied:
-            q0, q1 = snap(p.quarter_map(n.start.t)), snap(p.quarter_map(n.start.t + n.duration_tied))
-            rows.append((q0, q1 - q0, int(n.midi_pitch)))
     return "|".join([W.f_rat(org), notes, W.f_list(lambda tr: evs(tr, "key_signature"), trs),
                      "-" if anac == "time_sig_change" else W.f_list(lambda tr: evs(tr, "time_signature"), trs),
                      W.f_list(lambda tr: evs(tr, "set_tempo"), trs), rows_text(rows)])
@@ -1147,6 +1154,32 @@ def oracle(sd, order, cfg, mf, tracks, pnotes, sc2, tag):
                 if have[(tick_of(pd, t), nm)] == 0:
                     out.append("keysig(file): [%s] part %d key %s at division %d missing at tick %s of track %d"
                                % (tag, pi, nm, t, tick_of(pd, t), trk))
+    # no key signature in a track that no part of the track has at that musical position
+    for trk in (range(len(msgs)) if (pnotes is not None and got == want_ms) else []):
+        owners = [pi for pi in part_tracks if trk in part_tracks[pi]]
+        allowed = set((tick_of(pds[pi], t), fifths_mode_to_key_name(f, md)) for pi in owners for (t, f, md) in pds[pi].get("ks", []))
+        for t, m in msgs[trk]:
+            if m.type == "key_signature" and (t, m.key) not in allowed:
+                out.append("keysig(file): [%s] track %d has key %s at tick %d that no part of the track has there" % (tag, trk, m.key, t))
+                break
+    # time_sig_change: every written time signature stands at the tick of a time signature, a measure start or a
+    # measure end of a part of the track
+    if anac == "time_sig_change":
+        for trk in (range(len(msgs)) if (pnotes is not None and got == want_ms) else []):
+            owners = [pi for pi in part_tracks if trk in part_tracks[pi]]
+            spots = set()
+            for pi in owners:
+                spots |= set(tick_of(pds[pi], x[0]) for x in pds[pi].get("ts", []))
+                spots |= set(tick_of(pds[pi], x) for mm in (pds[pi].get("measures") or []) for x in mm[:2])
+            for t, m in msgs[trk]:
+                if m.type == "time_signature" and t not in spots:
+                    out.append("timesig(file,tsc): [%s] track %d has a time signature at tick %d, which is neither a signature nor a "
+                               "barline of a part of the track" % (tag, trk, t))
+                    break
+    # only the first track holds tempo events
+    for trk in range(1, len(msgs)):
+        if any(m.type == "set_tempo" for _, m in msgs[trk]):
+            out.append("tempo(file): [%s] track %d holds a tempo event" % (tag, trk))
     tempo_file = [(t, m.tempo) for tr in msgs for t, m in tr if m.type == "set_tempo"]
     marks = {}
     for pi, pd in enumerate(pds):
@@ -1189,6 +1222,21 @@ def oracle(sd, order, cfg, mf, tracks, pnotes, sc2, tag):
                 got2[kx] += 1
                 cell2[kx] = (p2.id, int(n.voice or 0))
                 group2[kx] = (g2, p2.id if g2 is None else None)
+        # create_part: one quarter duration, the file's ticks per quarter, from time 0; the created part's own quarter
+        # map gives every note the score's duration
+        for p2 in sc2.parts:
+            if [int(x) for x in p2._quarter_times] != [0] or [int(x) for x in p2._quarter_durations] != [ppq]:
+                out.append("divs(import): [%s] imported part %s has quarter durations %r at %r, file has %d ticks per quarter"
+                           % (tag, p2.id, list(p2._quarter_durations), list(p2._quarter_times), ppq))
+                break
+            qm2 = p2.quarter_map
+            bad = [n for n in p2.notes_tied
+                   if abs(float(qm2(n.start.t + n.duration_tied) - qm2(n.start.t)) - n.duration_tied / ppq) > 1e-9]
+            if bad:
+                out.append("divs(import): [%s] imported part %s: note at division %d lasts %r quarters in the part's quarter map, "
+                           "%r ticks at %d per quarter" % (tag, p2.id, bad[0].start.t, float(qm2(bad[0].start.t + bad[0].duration_tied) - qm2(bad[0].start.t)),
+                                                         bad[0].duration_tied, ppq))
+                break
         if got2 != want_ms:
             miss = list((want_ms - got2).items())[:2]
             extra = list((got2 - want_ms).items())[:2]
